@@ -40,7 +40,7 @@ func fieldPathEndsWith(info *types.Info, e ast.Expr, owner, field string) bool {
 		return false
 	}
 	f := core.FieldOf(info, se)
-	if f == nil || f.Name() != field {
+	if f == nil || core.RefName(f) != field {
 		return false
 	}
 	sel := info.Selections[se]
@@ -246,7 +246,7 @@ func ServicePortDesignation(p *core.Program, r *core.Report, rule string) {
 								okDefault = true
 							}
 						case *ast.CallExpr:
-							if fn := core.Callee(ginfo, y); fn != nil && fn.Pkg() != nil && strings.HasSuffix(fn.Pkg().Path(), "util/intstr") && strings.HasPrefix(fn.Name(), "FromInt") && len(y.Args) == 1 {
+							if fn := core.Callee(ginfo, y); fn != nil && fn.Pkg() != nil && strings.HasSuffix(fn.Pkg().Path(), "util/intstr") && strings.HasPrefix(core.RefName(fn), "FromInt") && len(y.Args) == 1 {
 								a := ast.Unparen(y.Args[0])
 								if c, isC := a.(*ast.CallExpr); isC && core.IsConversion(ginfo, c) {
 									a = c.Args[0]
@@ -284,9 +284,9 @@ func ServicePortDesignation(p *core.Program, r *core.Report, rule string) {
 			switch x := n.(type) {
 			case *ast.CallExpr:
 				if fn := core.Callee(ginfo, x); fn != nil && fn.Pkg() != nil && strings.HasSuffix(fn.Pkg().Path(), "util/intstr") {
-					switch fn.Name() {
+					switch core.RefName(fn) {
 					case "FromString", "Parse":
-						typed = append(typed, "intstr."+fn.Name())
+						typed = append(typed, "intstr."+core.RefName(fn))
 						if len(x.Args) == 1 && fieldPathEndsWith(ginfo, x.Args[0], "ServiceBackendPort", "Name") {
 							okName = true
 						}
@@ -417,7 +417,7 @@ func IngressTCPOnly(p *core.Program, r *core.Report, rule string) {
 			if fn == nil {
 				return true
 			}
-			switch fn.Name() {
+			switch core.RefName(fn) {
 			case "Contains":
 				if se, ok := ast.Unparen(x.Fun).(*ast.SelectorExpr); ok && len(x.Args) == 2 {
 					if id, isID := ast.Unparen(se.X).(*ast.Ident); isID && exposedVar != nil && info.ObjectOf(id) == exposedVar && isTCP(x.Args[1]) {
@@ -549,7 +549,7 @@ func IngressTCPOnly(p *core.Program, r *core.Report, rule string) {
 			if !isC || len(pw.Loops) == 0 {
 				return
 			}
-			if fn := core.Callee(pinfo, c); fn == nil || fn.Name() != "AddConnection" {
+			if fn := core.Callee(pinfo, c); fn == nil || core.RefName(fn) != "AddConnection" {
 				return
 			}
 			var unset, tcp facts.Formula = facts.False{}, facts.False{}
@@ -779,7 +779,7 @@ func IngressPolicyIntersection(p *core.Program, r *core.Report, rule string) {
 		ast.Inspect(af.Decl.Body, func(n ast.Node) bool {
 			if c, ok := n.(*ast.CallExpr); ok {
 				if fn := core.Callee(ainfo, c); fn != nil {
-					if fn.Name() == "resolveSingleMissingNamespace" {
+					if core.RefName(fn) == "resolveSingleMissingNamespace" {
 						resolves = true
 					}
 					// the pod may be built by a constructor of package k8s
@@ -899,7 +899,7 @@ func IngressNamespaceScoping(p *core.Program, r *core.Report, rule string) {
 			return found
 		}
 		ok := stores(fd,
-			func(e ast.Expr) bool { f := FieldBehind(fd, e); return f != nil && f.Name() == s.m },
+			func(e ast.Expr) bool { f := FieldBehind(fd, e); return f != nil && core.RefName(f) == s.m },
 			func(e ast.Expr) bool { return isObjField(e, "Namespace") },
 			func(e ast.Expr) bool { return isObjField(e, "Name") }, 0)
 		r.Check(ok, rule, fd.Key()+": stored under the object's own namespace and name", p.Pos(fd.Decl.Pos()), s.m+"[obj.Namespace][obj.Name]", "the object is no longer stored under [its namespace][its name]")
@@ -918,14 +918,14 @@ func IngressNamespaceScoping(p *core.Program, r *core.Report, rule string) {
 			if fn == nil {
 				return true
 			}
-			if fn.Name() == "GetSelectedPeers" && len(c.Args) == 2 {
+			if core.RefName(fn) == "GetSelectedPeers" && len(c.Args) == 2 {
 				if se, isSe := ast.Unparen(c.Args[1]).(*ast.SelectorExpr); isSe && se.Sel.Name == "Namespace" {
 					if id, isID := ast.Unparen(se.X).(*ast.Ident); isID && info.ObjectOf(id) == prm {
 						ok = true
 					}
 				}
 			}
-			if fn.Name() == "convertServiceSelectorToLabelSelector" && len(c.Args) == 1 && fieldPathEndsWith(info, c.Args[0], "ServiceSpec", "Selector") {
+			if core.RefName(fn) == "convertServiceSelectorToLabelSelector" && len(c.Args) == 1 && fieldPathEndsWith(info, c.Args[0], "ServiceSpec", "Selector") {
 				okSel = true
 			}
 			return true
@@ -949,13 +949,13 @@ func IngressNamespaceScoping(p *core.Program, r *core.Report, rule string) {
 			if found {
 				for _, a := range facts.Atoms(fm) {
 					s := facts.StripVersions(a)
-					if strings.HasPrefix(s, "cmp:") && strings.Contains(s, ".Namespace()") && strings.Contains(s, nsP.Name()) && strings.Contains(s, "!=") && facts.Entails(fm, facts.Not{X: facts.Atom(a)}) {
+					if strings.HasPrefix(s, "cmp:") && strings.Contains(s, ".Namespace()") && strings.Contains(s, core.RefName(nsP)) && strings.Contains(s, "!=") && facts.Entails(fm, facts.Not{X: facts.Atom(a)}) {
 						okNs = true
 					}
-					if strings.HasPrefix(s, "eq:") && strings.Contains(s, ".Namespace()") && strings.Contains(s, nsP.Name()+"==") && facts.Entails(fm, facts.Atom(a)) {
+					if strings.HasPrefix(s, "eq:") && strings.Contains(s, ".Namespace()") && strings.Contains(s, core.RefName(nsP)+"==") && facts.Entails(fm, facts.Atom(a)) {
 						okNs = true
 					}
-					if strings.HasPrefix(s, "b:"+selP.Name()+".Matches(") && strings.Contains(s, ".Labels") && facts.Entails(fm, facts.Atom(a)) {
+					if strings.HasPrefix(s, "b:"+core.RefName(selP)+".Matches(") && strings.Contains(s, ".Labels") && facts.Entails(fm, facts.Atom(a)) {
 						okMatch = true
 					}
 				}
@@ -977,7 +977,7 @@ func IngressNamespaceScoping(p *core.Program, r *core.Report, rule string) {
 			if !isIx2 {
 				return true
 			}
-			if f := core.FieldOf(info, ix2.X); f == nil || f.Name() != "servicesToPortsAndPeersMap" {
+			if f := core.FieldOf(info, ix2.X); f == nil || core.RefName(f) != "servicesToPortsAndPeersMap" {
 				return true
 			}
 			id, isID := ast.Unparen(ix2.Index).(*ast.Ident)
@@ -991,7 +991,7 @@ func IngressNamespaceScoping(p *core.Program, r *core.Report, rule string) {
 		okPorts := false
 		ast.Inspect(fd.Decl.Body, func(n ast.Node) bool {
 			if c, isC := n.(*ast.CallExpr); isC {
-				if fn := core.Callee(info, c); fn != nil && fn.Name() == "getIngressPeerConnection" && len(c.Args) >= 3 {
+				if fn := core.Callee(info, c); fn != nil && core.RefName(fn) == "getIngressPeerConnection" && len(c.Args) >= 3 {
 					// (the element of <entry>.peers, <entry>.ports, <designation>.servicePort) where <entry> is the value
 					// looked up in servicesToPortsAndPeersMap
 					a1, a2 := core.ExprStr(c.Args[1]), core.ExprStr(c.Args[2])
@@ -1032,7 +1032,7 @@ func IngressNamespaceScoping(p *core.Program, r *core.Report, rule string) {
 			if k, isID := outer.Key.(*ast.Ident); isID {
 				ast.Inspect(outer.Body, func(n ast.Node) bool {
 					if c, isC := n.(*ast.CallExpr); isC {
-						if fn := core.Callee(info, c); fn != nil && fn.Name() == "getIngressObjectTargetedPeersAndPorts" && len(c.Args) == 2 {
+						if fn := core.Callee(info, c); fn != nil && core.RefName(fn) == "getIngressObjectTargetedPeersAndPorts" && len(c.Args) == 2 {
 							if id, isID := ast.Unparen(c.Args[0]).(*ast.Ident); isID && info.ObjectOf(id) == info.ObjectOf(k) {
 								ok = true
 							}
@@ -1077,7 +1077,7 @@ func IngressNamespaceScoping(p *core.Program, r *core.Report, rule string) {
 					hasStore = true
 				}
 				if c, isC := m.(*ast.CallExpr); isC {
-					if f := core.Callee(info, c); f != nil && f.Name() == "Union" && strings.HasPrefix(core.ExprStr(c.Fun), entry) {
+					if f := core.Callee(info, c); f != nil && core.RefName(f) == "Union" && strings.HasPrefix(core.ExprStr(c.Fun), entry) {
 						hasUnion = true
 					}
 				}
